@@ -2,8 +2,10 @@ package verifh
 
 import (
 	"context"
+	"encoding/base64"
 	stderrors "errors"
 	"fmt"
+	"github.com/ory/keto/internal/driver/config"
 	"math/rand/v2"
 	"regexp"
 	"sort"
@@ -20,13 +22,14 @@ import (
 
 // cfgTypeErrors applies the documented OPL type rules (spec, "Type checking")
 // to a harness configuration, independently of keto's type checker:
-//   * a type name must be a declared namespace;
-//   * SubjectSet<T, R>: R must be a relation declared for T;
-//   * this.related.R.includes / this.permits.R: R declared in the current namespace;
-//   * this.related.R.traverse(x => x.related.S.includes | x.permits.S): R declared in
+//   - a type name must be a declared namespace;
+//   - SubjectSet<T, R>: R must be a relation declared for T;
+//   - this.related.R.includes / this.permits.R: R declared in the current namespace;
+//   - this.related.R.traverse(x => x.related.S.includes | x.permits.S): R declared in
 //     the current namespace and S declared for all types referenced by R, where a
 //     SubjectSet<T, R'> type stands for the element types of T.R' (its TypeScript
 //     definition in the spec: A["related"][R] extends Array<infer T> ? T : never).
+//
 // A nil result means "well typed".
 func cfgTypeErrors(c *Cfg) []string {
 	var errs []string
@@ -403,10 +406,10 @@ func c11Explain(c *Cfg, missing string) string {
 // Part B: reference mutations
 
 type refSite struct {
-	Kind string `json:"kind"`
-	NS   string `json:"ns"`
-	Rel  string `json:"rel"`
-	Pos  string `json:"pos"`
+	Kind string                    `json:"kind"`
+	NS   string                    `json:"ns"`
+	Rel  string                    `json:"rel"`
+	Pos  string                    `json:"pos"`
 	set  func(c *Cfg, name string) // applies the mutation on a clone
 	old  string
 }
@@ -729,7 +732,64 @@ func runC11Checks(run *runner, lim *sigLimiter, idx int64, cc *c11Case, shrunk m
 				Case:    cc, Detail: detail})
 			verdict = "violation"
 		}
+		// The same property on a LIVE server whose configuration is replaced by
+		// another accepted document: the engine instance that already served
+		// checks must evaluate the new document (same registry, same engine).
+		if !strict && idx%2 == 0 {
+			if v := runC11Reload(run, lim, idx, env, st, eng); v != "ok" {
+				verdict = v
+			}
+		}
 		env.Close()
+	}
+	return verdict
+}
+
+func runC11Reload(run *runner, lim *sigLimiter, idx int64, env *Env, st *instrStore, eng *check.Engine) string {
+	p := run.p
+	cc2 := genC11Case(p.rng(idx, "reload"), idx*4+1+int64(p.rng(idx, "reload-variant").IntN(3)))
+	if cfgTypeErrors(cc2.Cfg) != nil {
+		return "ok"
+	}
+	if _, errs, _, aborted, pt := c12Parse(cc2.Text, 20_000_000); pt != "" || aborted || len(errs) > 0 {
+		return "ok"
+	}
+	if err := env.Reg.Config(env.Ctx).Set(config.KeyNamespaces, map[string]any{
+		"location":                 "base64://" + base64.StdEncoding.EncodeToString([]byte(cc2.Text)),
+		"experimental_strict_mode": false,
+	}); err != nil {
+		run.inconclusive(fmt.Sprintf("C11 idx %d reload: %v", idx, err))
+		return "ok"
+	}
+	if err := env.wipe(); err != nil {
+		return "ok"
+	}
+	if err := env.Write(cc2.tuples...); err != nil {
+		run.inconclusive(fmt.Sprintf("C11 idx %d reload: write: %v", idx, err))
+		return "ok"
+	}
+	verdict := "ok"
+	seen := map[string]bool{}
+	for qi, q := range c11Queries(p.rng(idx, "reload-queries"), cc2) {
+		d := c11Check(env, st, eng, q, 3*time.Second)
+		run.eval(1)
+		run.count("checks_after_reload", 1)
+		if d.TimedOut || d.Err == nil {
+			continue
+		}
+		class, reason := schemaErrorClass(d.Err)
+		if class == "" {
+			continue
+		}
+		sig := "C11:schema-error-after-reload:" + class
+		if seen[sig] {
+			continue
+		}
+		seen[sig] = true
+		lim.violate(run, violation{Index: idx, Sub: fmt.Sprintf("reload/q%d", qi), Sig: sig,
+			Summary: fmt.Sprintf("after the namespace configuration of a live server was replaced by another accepted document, check %s on a relation the new document declares fails with a schema error: %s (%s)", q, reason, d.Err.Error()),
+			Case:    cc2, Detail: map[string]any{"query": q.String(), "error": d.Err.Error()}})
+		verdict = "violation"
 	}
 	return verdict
 }
